@@ -9,7 +9,7 @@ step (and with which flow entry).  `Store.apply_update` reports structural chang
 `(path, thing)` plus deleted path prefixes (`Report`); the engine maintains `process_paths`,
 `_step_paths`, the step graph and the published `processes/steps/flow/topology` from those reports.
 The report each structural operation produces is modelled in `StoreOps.lean` (C09); here the
-reports are inputs, characterised by `Faithful`.
+reports are inputs (`VivProps.C10.bookkeeping_step` holds for whatever the report contains).
 -/
 namespace Viv.Book
 open Viv.StepGraph
